@@ -605,6 +605,104 @@ def oracle_yield(sc):
     return fails
 
 
+def oracle_aug(sc):
+    """A per-subproject override that exists before the subproject is initialised keeps priority
+    over every source (options.py: "merge everything ... while giving self.augments priority")."""
+    fails = []
+    st = O.OptionStore(sc.get('cross', False))
+    st.init_builtins()
+    name = sc['name']
+    gkey, skey = OptionKey(name), OptionKey(name, 'sub')
+    try:
+        st.set_option(skey, dec_value(sc['pre']))
+    except MesonException:
+        return fails
+    before = st.get_value_for(skey)
+    src = {k: dec_value(v) for k, v in sc['src'].items()}
+
+    def d(*pairs):
+        return {k: src[x] for k, x in pairs if x in src}
+    try:
+        st.initialize_from_subproject_call('sub', d((gkey, 'spcall')), d((gkey, 's_opt')),
+                                           d((gkey, 'cl_opt'), (skey, 'cl_sub')), d((gkey, 'mf_opt'), (skey, 'mf_sub')))
+    except MesonException:
+        return fails
+    after = st.get_value_for(skey)
+    if after != before:
+        fails.append(dict(kind='existing_override_lost', scenario=sc, before=enc_value(before), after=enc_value(after)))
+    return fails
+
+
+def oracle_misc(sc):
+    """read-only options, renamed (deprecated: 'new') options, replaced deprecated values"""
+    fails = []
+
+    def add(kind, **kw):
+        fails.append(dict(kind=kind, scenario=sc, **kw))
+    st = O.OptionStore(False)
+    st.init_builtins()
+    t = sc['t']
+    if t == 'readonly':
+        key = OptionKey(sc['name'])
+        cur = st.get_value_for(key)
+        ok, want = canon(sc['kind'], dec_value(sc['value']))
+        try:
+            st.set_option(key, dec_value(sc['value']), sc['first'])
+            raised = False
+        except MesonException:
+            raised = True
+        if not ok:
+            if not raised:
+                add('invalid_value_accepted', got=enc_value(st.get_value_for(key)))
+            return fails
+        changed = want != cur
+        if changed and not sc['first'] and not raised:
+            add('readonly_option_changed', value=enc_value(st.get_value_for(key)))
+        if (not changed or sc['first']) and raised:
+            add('readonly_refused_without_change')
+        if not raised and st.get_value_for(key) != want:
+            add('readonly_value', got=enc_value(st.get_value_for(key)), expected=enc_value(want))
+    elif t == 'rename':
+        kd = sc['kind']
+        new_k, old_k = OptionKey('new_name', ''), OptionKey('old_name', '')
+        st.add_project_option(new_k, make_option('new_name', kd, sc['default'], 'F', 'F', 'n'))
+        st.add_project_option(old_k, make_option('old_name', kd, sc['default'], 'F', 'F', 'rnew_name'))
+        v = dec_value(sc['value'])
+        ok, want = canon(kd, v)
+        try:
+            if sc.get('via') == 'top':
+                st.initialize_from_top_level_project_call({}, {OptionKey('old_name'): v}, {})
+            else:
+                st.set_option(old_k, v, True)
+        except MesonException:
+            if ok:
+                add('rename_valid_value_rejected')
+            return fails
+        if ok is False:
+            add('invalid_value_accepted', got=enc_value(st.get_value_for(old_k)))
+            return fails
+        if ok and (st.get_value_for(new_k) != want or st.get_value_for(old_k) != want):
+            add('rename_not_applied_to_both', expected=enc_value(want), new=enc_value(st.get_value_for(new_k)), old=enc_value(st.get_value_for(old_k)))
+    elif t == 'replace':
+        key = OptionKey('dopt', '')
+        st.add_project_option(key, make_option('dopt', sc['kind'], sc['default'], 'F', 'F', sc['depr']))
+        v = dec_value(sc['value'])
+        try:
+            st.set_option(key, v, True)
+        except MesonException:
+            if sc.get('want') is not None:
+                add('replaced_value_rejected')
+            return fails
+        if sc.get('want') is None:
+            add('invalid_value_accepted', got=enc_value(st.get_value_for(key)))
+        elif enc_value(st.get_value_for(key)) != sc['want']:
+            add('deprecated_value_not_replaced', expected=sc['want'], got=enc_value(st.get_value_for(key)))
+    bad = invalid_stored(st)
+    if bad:
+        add('stored_invalid', keys=bad)
+    return fails
+
+
 def main():
     req = json.load(sys.stdin)
     out = {}
@@ -616,7 +714,7 @@ def main():
         res = []
         for sc in req['oracle']:
             try:
-                f = {'prec': oracle_scenario, 'bt': oracle_buildtype, 'prefix': oracle_prefix, 'yield': oracle_yield}[sc['o']]
+                f = {'prec': oracle_scenario, 'bt': oracle_buildtype, 'prefix': oracle_prefix, 'yield': oracle_yield, 'aug': oracle_aug, 'misc': oracle_misc}[sc['o']]
                 res.extend(f(sc))
             except Exception as e:
                 res.append({'kind': 'exception', 'exc': type(e).__name__ + ': ' + str(e), 'scenario': sc})
